@@ -1,7 +1,11 @@
 // Stand-in for llgo's sync/atomic: sequentially consistent, every operation preceded by a scheduling point.
 package atomic
 
-import "github.com/goplus/llgo/runtime/vs"
+import (
+	"unsafe"
+
+	"github.com/goplus/llgo/runtime/vs"
+)
 
 func LoadUint32(p *uint32) uint32     { vs.PointNote("atomic load %p = %d", p, *p); return *p }
 func StoreUint32(p *uint32, v uint32) { vs.PointNote("atomic store %p %d", p, v); *p = v }
@@ -100,3 +104,54 @@ type Bool struct{ v bool }
 
 func (x *Bool) Load() bool   { vs.Point(); return x.v }
 func (x *Bool) Store(v bool) { vs.Point(); x.v = v }
+
+// ---- pointer operations (used by llgo's own atomic.Value, value.go, which is copied from the working tree at check time)
+
+type lastLoadT struct {
+	p *unsafe.Pointer
+	v unsafe.Pointer
+}
+
+var lastLoad = map[int]lastLoadT{}
+
+// ResetSpin forgets the per-thread spin detector (start of an execution).
+func ResetSpin() { lastLoad = map[int]lastLoadT{} }
+
+// LoadPointer: a thread that re-loads the address it loaded in its previous atomic operation and would see the same value is busy-waiting; that
+// iteration is a stutter step, so the thread waits (blocked, like a condition wait) until the location holds a different value instead of unrolling
+// the spin loop; a spin that nothing ends shows as a terminal state with a blocked thread. Any other atomic operation of the thread ends the spin.
+func LoadPointer(p *unsafe.Pointer) unsafe.Pointer {
+	id := vs.S.Cur().ID
+	if l, ok := lastLoad[id]; ok && l.p == p && l.v == *p {
+		vs.Await(func() bool { return *p != l.v })
+	} else {
+		vs.PointNote("atomic load ptr %p", p)
+	}
+	v := *p
+	lastLoad[id] = lastLoadT{p, v}
+	return v
+}
+
+func StorePointer(p *unsafe.Pointer, v unsafe.Pointer) {
+	delete(lastLoad, vs.S.Cur().ID)
+	vs.PointNote("atomic store ptr %p", p)
+	*p = v
+}
+
+func SwapPointer(p *unsafe.Pointer, v unsafe.Pointer) unsafe.Pointer {
+	delete(lastLoad, vs.S.Cur().ID)
+	vs.PointNote("atomic swap ptr %p", p)
+	o := *p
+	*p = v
+	return o
+}
+
+func CompareAndSwapPointer(p *unsafe.Pointer, o, n unsafe.Pointer) bool {
+	delete(lastLoad, vs.S.Cur().ID)
+	vs.PointNote("atomic cas ptr %p", p)
+	if *p == o {
+		*p = n
+		return true
+	}
+	return false
+}
